@@ -189,6 +189,7 @@ WellFormed(s, o) ==
       [] o.op \in {"fail", "resolve"} -> s.started /\ s.pend = <<>> /\ o.m \in 1..s.n /\ o.lvl \in 1..3 /\ o.fid \in 0..2
                                          /\ (o.op = "fail" => o.fid # 0)
       [] o.op = "sfail"    -> s.started /\ s.pend = <<>> /\ o.m \in 2..s.n /\ o.v \in {"T", "F"}
+      [] o.op = "wait"     -> s.started /\ o.k \in 0..1000     \* the driver pauses for k milliseconds (no quiet point)
       [] OTHER             -> FALSE
 
 Step(s, o) ==
@@ -198,6 +199,7 @@ Step(s, o) ==
       [] o.op = "fail"     -> Fail(s, o)
       [] o.op = "resolve"  -> Resolve(s, o)
       [] o.op = "sfail"    -> SFail(s, o)
+      [] o.op = "wait"     -> {[res |-> "ok", st |-> s]}
 
 \* ---------------------------------------------------------------------------------- observation at a quiet point
 \* ev: [mods: <<[en, dep, st, fs, fid, msg]>>, recs: <<[id, ord, key, tk, ks, fs, m: <<[m, en, st, fs, fid, msg]>>]>>,
